@@ -252,6 +252,18 @@ def focused(tier):
                    {"A": klass([ARR, None], [[1.0, 0.5], [2.0, 1.0]], route=matrix([[0.0, 1.0], [0.0, 0.0]]), prio=1),
                     "B": klass([[1.0, 2.0], None], [[1.0, 0.5], [2.0, 1.0]], route=matrix([[0.0, 1.0], [0.0, 0.0]]), prio=0)},
                    K=2, T=12.0, D=Dl + 1, features=["ccm", "blocking"]))
+    # class change after service at node 1, then pre-emptive re-routing at node 2 with class-dependent re-routing targets
+    ccm1 = {"A": {"A": 0.0, "B": 1.0}, "B": {"A": 0.0, "B": 1.0}, "C": {"A": 0.0, "B": 0.0, "C": 1.0}}
+    for k in ("A", "B"):
+        ccm1[k]["C"] = 0.0
+    out.append(cfg("ccm then reroute by class", fam, [node(c=1, class_change=ccm1), node(c=1, preempt="reroute"), node(c=1), node(c=1)],
+                   {"A": klass([{"values": [0.5], "budget": 1}, None, None, None], [[0.5], [4.0], [1.0], [1.0]], prio=1,
+                               route=network(direct(2), direct(-1, reroute_to=4), leave(), leave())),
+                    "B": klass([None, None, None, None], [[0.5], [4.0, 3.0], [1.0], [1.0]], prio=1,
+                               route=network(direct(2), direct(-1, reroute_to=3), leave(), leave())),
+                    "C": klass([None, {"values": [2.0, 2.5], "budget": 1}, None, None], [[0.5], [1.0], [1.0], [1.0]], prio=0,
+                               route=network(direct(2), direct(-1, reroute_to=3), leave(), leave()))},
+                   K=1, T=12.0, features=["ccm", "preempt_reroute", "network"]))
     # end points of random(): explicit answers 0.0 and 1-2**-53 for every draw
     eps = [0.5, 0.0, 1.0 - 2.0 ** -53]
     out.append(cfg("endpoints matrix", "F-endpoints", n3(), {"A": klass([ARR, None, None], srv3, route=matrix([[0.0, 0.5, 0.0], [0.0, 0.0, 0.5], [0.5, 0.0, 0.0]]))},
